@@ -117,6 +117,22 @@ Definition bad_g (exact : bool) (c : caseg) : list N :=
 Definition mismatchesg (cs : list caseg) : list N := flat_map (bad_g false) cs.
 Definition inexactg (cs : list caseg) : list N := flat_map (bad_g true) cs.
 
-(* ---- the smoothed vertex lists against their closed form (Sdf/ScrewR.v proves the nesting
-        for the closed form): id, radius, pitch -> largest coordinate deviation must be
-        <= 1e-12 * (radius + pitch).  Defined in Sdf/ScrewR.v's companion below. *)
+(* ---- the smoothed vertex lists of the model against their closed form (for which
+        Sdf/IsoProfile.v proves the nesting): id, radius, pitch; every coordinate must agree
+        within 1e-12 * (radius + pitch), for the external and the internal profile *)
+Definition casev := (N * float * float)%type.
+Fixpoint close_lists (tol : float) (a b : list (V2 FOps)) : bool :=
+  match a, b with
+  | [], [] => true
+  | u :: a', v :: b' =>
+    PrimFloat.leb (PrimFloat.abs (vx u - vx v)) tol && PrimFloat.leb (PrimFloat.abs (vy u - vy v)) tol &&
+    close_lists tol a' b'
+  | _, _ => false
+  end.
+Definition okv (c : casev) : bool :=
+  let '(id, r, p) := c in
+  let tol := (0x1.19799812dea11p-40 * (PrimFloat.abs r + PrimFloat.abs p))%float in
+  close_lists tol (@iso_thread FOps r p true) (iso_polygon_of_outline p (@iso_ext_outline FOps r p)) &&
+  close_lists tol (@iso_thread FOps r p false) (iso_polygon_of_outline p (@iso_int_outline FOps r p)).
+Definition mismatchesv (cs : list casev) : list N :=
+  map (fun c : casev => let '(id, _, _) := c in id) (filter (fun c => negb (okv c)) cs).
